@@ -13,8 +13,10 @@ from harness.trace import Run, result_str
 
 PROP = "C17"
 THEOREMS = ["Lbfgsb.C17.scaler_called_once", "Lbfgsb.C17.scaler_sees_unscaled", "Lbfgsb.C17.target_on_unscaled",
-            "Lbfgsb.C17.scaled_values", "Lbfgsb.C17.scaler_equivalence", "Lbfgsb.C17.unit_scaling_pos", "Lbfgsb.C17.fd_scaling_linear"]
-MODULES = ["LbfgsbVerif.Props.C17", "LbfgsbVerif.Props.C17FD"]
+            "Lbfgsb.C17.scaled_values", "Lbfgsb.C17.scaler_equivalence", "Lbfgsb.C17.unit_scaling_pos", "Lbfgsb.C17.fd_scaling_linear",
+            "Lbfgsb.C09.iteration_objective_scale"]
+MODULES = ["LbfgsbVerif.Props.C17", "LbfgsbVerif.Props.C17FD",
+            "LbfgsbVerif.Props.C09UnitsKernel"]
 
 
 def evaluate(case: Dict[str, Any]) -> Dict[str, Any]:
